@@ -72,6 +72,10 @@ pub fn trace(ops: &[Op], base: &std::path::Path, obs: &mut Obs) -> Result<Traced
         }
     }
     drop(r.db.take());
+    let unhooked = rec.unhooked_unlinks.load(SeqCst);
+    if unhooked > 0 {
+        obs.count("removals-that-bypassed-the-io-hook", unhooked);
+    }
     Ok(Traced { events: rec.take(), states: r.states, final_acked: rec.acked.load(SeqCst) })
 }
 
